@@ -280,6 +280,24 @@ def whitelist(repo: Repo):
             mi = repo.modules[st.module]
             txt = unparse(c2)
             head, _, tail = txt.rpartition(".")
+            dmod = repo.modules.get("opfython.math.distance")
+            if dmod is not None and tail != "DISTANCES" and (mi.imports.get(head) == "opfython.math.distance"
+                                                             or mi.imports.get(txt, "").startswith("opfython.math.distance.")):
+                # a view of the registry's names kept next to it (`DISTANCE_NAMES = tuple(DISTANCES)`), bound once
+                nm = tail if head else mi.imports[txt].rpartition(".")[2]
+                binds = [x for x in dmod.tree.body if isinstance(x, ast.Assign) and any(isinstance(t, ast.Name) and t.id == nm for t in x.targets)]
+                stores = [x for m2 in repo.modules.values() for x in ast.walk(m2.tree) if isinstance(x, ast.Attribute)
+                          and x.attr == nm and isinstance(x.ctx, (ast.Store, ast.Del))]
+                if len(binds) == 1 and not stores:
+                    v = binds[0].value
+                    if isinstance(v, ast.Call) and isinstance(v.func, ast.Name) and v.func.id in ("tuple", "list", "sorted", "frozenset", "set") \
+                            and len(v.args) == 1 and not v.keywords:
+                        v = v.args[0]
+                    if isinstance(v, ast.Call) and isinstance(v.func, ast.Attribute) and v.func.attr == "keys" and not v.args:
+                        v = v.func.value
+                    if isinstance(v, ast.Name) and v.id == "DISTANCES":
+                        from .algebra import MetricTranslator
+                        return st, sorted(MetricTranslator(repo).registry()), n
             if (tail == "DISTANCES" and mi.imports.get(head) == "opfython.math.distance") or \
                     mi.imports.get(txt) == "opfython.math.distance.DISTANCES":
                 from .algebra import MetricTranslator
